@@ -5,20 +5,17 @@
 -/
 import SPProofs.Logic.Build
 
-namespace SPModel
+namespace SPModel.Switch
 open Formula
 
 /-! ## `AgreeBelow` -/
 
-theorem AgreeBelow.refl (n : Nat) (σ : Assign) : AgreeBelow n σ σ := fun _ _ _ => rfl
+theorem agree_refl (n : Nat) (σ : Assign) : AgreeBelow n σ σ := fun _ _ _ => rfl
 
-theorem AgreeBelow.trans {n : Nat} {σ τ ρ : Assign} (h₁ : AgreeBelow n σ τ) (h₂ : AgreeBelow n τ ρ) :
+theorem agree_trans {n : Nat} {σ τ ρ : Assign} (h₁ : AgreeBelow n σ τ) (h₂ : AgreeBelow n τ ρ) :
     AgreeBelow n σ ρ := fun v h1 h2 => (h₁ v h1 h2).trans (h₂ v h1 h2)
 
-theorem AgreeBelow.symm {n : Nat} {σ τ : Assign} (h : AgreeBelow n σ τ) : AgreeBelow n τ σ :=
-  fun v h1 h2 => (h v h1 h2).symm
-
-theorem AgreeBelow.mono {n m : Nat} {σ τ : Assign} (hm : m ≤ n) (h : AgreeBelow n σ τ) :
+theorem agree_mono {n m : Nat} {σ τ : Assign} (hm : m ≤ n) (h : AgreeBelow n σ τ) :
     AgreeBelow m σ τ := fun v h1 h2 => h v h1 (Nat.lt_of_lt_of_le h2 hm)
 
 /-! ## `WF` is monotone, `eval` only looks below the bound -/
@@ -71,5 +68,408 @@ theorem evalAny_agree {m : Nat} {σ τ : Assign} (hag : AgreeBelow m σ τ) :
     simp only [Formula.WFs] at hf; simp only [evalAny]
     rw [eval_agree hag f hf.1, evalAny_agree hag fs hf.2]
 end
+
+/-! ## Semantic refinement with fresh variables -/
+
+/-- `g` (over variables `< m'`) refines `f` (over variables `< m`): every model
+    of `g` is a model of `f`, and every model of `f` extends to one of `g`
+    without changing the variables below `m`. -/
+def Sem (f : Formula) (m : Nat) (g : Formula) (m' : Nat) : Prop :=
+  m ≤ m' ∧ (∀ τ, g.eval τ = true → f.eval τ = true) ∧
+    (∀ σ, f.eval σ = true → ∃ τ, AgreeBelow m σ τ ∧ g.eval τ = true)
+
+theorem Sem.refl (f : Formula) (m : Nat) : Sem f m f m :=
+  ⟨Nat.le_refl _, fun _ h => h, fun σ h => ⟨σ, agree_refl _ _, h⟩⟩
+
+theorem Sem.of_eq {f g : Formula} (m : Nat) (h : ∀ τ, g.eval τ = f.eval τ) : Sem f m g m :=
+  ⟨Nat.le_refl _, fun τ hg => by rw [← h]; exact hg, fun σ hf => ⟨σ, agree_refl _ _, by rw [h]; exact hf⟩⟩
+
+theorem Sem.trans {f g k : Formula} {m m1 m2 : Nat} (h₁ : Sem f m g m1) (h₂ : Sem g m1 k m2) :
+    Sem f m k m2 := by
+  obtain ⟨le1, s1, c1⟩ := h₁
+  obtain ⟨le2, s2, c2⟩ := h₂
+  refine ⟨Nat.le_trans le1 le2, fun τ hk => s1 τ (s2 τ hk), fun σ hf => ?_⟩
+  obtain ⟨τ1, ag1, hg⟩ := c1 σ hf
+  obtain ⟨τ2, ag2, hk⟩ := c2 τ1 hg
+  exact ⟨τ2, agree_trans ag1 (agree_mono le1 ag2), hk⟩
+
+/-- The invariant of `distSwitch`. -/
+def Good (f : Formula) (m : Nat) (g : Formula) (m' : Nat) : Prop :=
+  Sem f m g m' ∧ g.WF m' ∧ g.Shape ∧ (f.isOr = false → g.isOr = false)
+
+theorem Good.refl {f : Formula} {m : Nat} (hwf : f.WF m) (hs : f.Shape) : Good f m f m :=
+  ⟨Sem.refl f m, hwf, hs, fun h => h⟩
+
+/-! ## The two combinations -/
+
+theorem all_or_const {α : Type} (b : Bool) (p : α → Bool) (l : List α) :
+    l.all (fun y => b || p y) = (b || l.all p) := by
+  induction l with
+  | nil => simp
+  | cons a l ih => simp only [List.all_cons, ih]; cases b <;> simp
+
+theorem all_all_or {α : Type} (p : α → Bool) (l0 l1 : List α) :
+    l0.all (fun x => l1.all (fun y => p x || p y)) = (l0.all p || l1.all p) := by
+  induction l0 with
+  | nil => simp
+  | cons a l ih =>
+    rw [List.all_cons, List.all_cons, ih, all_or_const]
+    cases p a <;> cases l.all p <;> cases l1.all p <;> rfl
+
+theorem listForCrossing_eval (τ : Assign) (c : Formula) (h : c.isOr = false) :
+    evalAll τ (listForCrossing c) = c.eval τ := by
+  cases c <;> simp [listForCrossing, evalAll, eval, isOr] at *
+
+theorem listForCrossing_WF {n : Nat} (c : Formula) (h : c.WF n) : ∀ x ∈ listForCrossing c, x.WF n := by
+  cases c <;> simp only [listForCrossing, List.mem_singleton, forall_eq] <;> try exact h
+  all_goals simp only [Formula.WF] at h; exact (WFs_iff _ _).1 h
+
+theorem listForCrossing_Shape (c : Formula) (h : c.Shape) : ∀ x ∈ listForCrossing c, x.Shape := by
+  cases c <;> simp only [listForCrossing, List.mem_singleton, forall_eq] <;> try exact h
+  · simp only [Formula.Shape] at h; exact (Shapes_iff _).1 h
+  · simp only [Formula.Shape] at h; exact (Shapes_iff _).1 h.1
+
+/-- the `And` of pairwise `Or`s that `__naive_combination` builds -/
+def crossAnd (c0 c1 : Formula) : Formula :=
+  Formula.and (((listForCrossing c0).flatMap (fun x => (listForCrossing c1).map (fun y => [x, y]))).map
+    (fun l => Formula.or (sortFormulas (flattenOr l))))
+
+theorem eval_crossAnd (τ : Assign) (c0 c1 : Formula) (h0 : c0.isOr = false) (h1 : c1.isOr = false) :
+    (crossAnd c0 c1).eval τ = (c0.eval τ || c1.eval τ) := by
+  have hb : ∀ l, evalAny τ (sortFormulas (flattenOr l)) = l.any (eval τ) := by
+    intro l
+    have := eval_buildOr τ l
+    rw [evalAny_eq_any] at this
+    simpa only [buildOr, eval] using this
+  rw [← listForCrossing_eval τ c0 h0, ← listForCrossing_eval τ c1 h1]
+  simp only [crossAnd, eval, evalAll_eq_all, List.all_map, List.all_flatMap, Function.comp_def, hb]
+  simp only [List.any_cons, List.any_nil, Bool.or_false]
+  exact all_all_or (eval τ) _ _
+
+theorem WF_crossAnd {n : Nat} (c0 c1 : Formula) (h0 : c0.WF n) (h1 : c1.WF n) : (crossAnd c0 c1).WF n := by
+  simp only [crossAnd, Formula.WF, WFs_iff, List.mem_map, List.mem_flatMap]
+  rintro g ⟨l, ⟨x, hx, y, hy, rfl⟩, rfl⟩
+  apply WF_buildOr
+  intro z hz
+  simp only [List.mem_cons, List.not_mem_nil, or_false] at hz
+  rcases hz with rfl | rfl
+  · exact listForCrossing_WF c0 h0 _ hx
+  · exact listForCrossing_WF c1 h1 _ hy
+
+theorem Shape_crossAnd (c0 c1 : Formula) (h0 : c0.Shape) (h1 : c1.Shape) : (crossAnd c0 c1).Shape := by
+  simp only [crossAnd, Formula.Shape, Shapes_iff, List.mem_map, List.mem_flatMap]
+  rintro g ⟨l, ⟨x, hx, y, hy, rfl⟩, rfl⟩
+  apply Shape_buildOr
+  intro z hz
+  simp only [List.mem_cons, List.not_mem_nil, or_false] at hz
+  rcases hz with rfl | rfl
+  · exact listForCrossing_Shape c0 h0 _ hx
+  · exact listForCrossing_Shape c1 h1 _ hy
+
+theorem naiveCombination_eq (c0 c1 : Formula) (rest : List Formula) :
+    naiveCombination c0 c1 rest =
+      if rest.isEmpty then crossAnd c0 c1 else buildOr (crossAnd c0 c1 :: rest) := rfl
+
+/-- either `comb` alone or `buildOr (comb :: rest)` -/
+theorem eval_withRest (τ : Assign) (comb : Formula) (rest : List Formula) :
+    (if rest.isEmpty then comb else buildOr (comb :: rest)).eval τ = (comb.eval τ || evalAny τ rest) := by
+  cases rest with
+  | nil => simp [evalAny]
+  | cons r rs => simp [eval_buildOr, evalAny]
+
+theorem WF_withRest {n : Nat} (comb : Formula) (rest : List Formula) (hc : comb.WF n)
+    (hr : ∀ r ∈ rest, r.WF n) : (if rest.isEmpty then comb else buildOr (comb :: rest)).WF n := by
+  split
+  · exact hc
+  · apply WF_buildOr
+    intro g hg
+    rcases List.mem_cons.1 hg with rfl | hg
+    · exact hc
+    · exact hr g hg
+
+theorem Shape_withRest (comb : Formula) (rest : List Formula) (hc : comb.Shape)
+    (hr : ∀ r ∈ rest, r.Shape) : (if rest.isEmpty then comb else buildOr (comb :: rest)).Shape := by
+  split
+  · exact hc
+  · apply Shape_buildOr
+    intro g hg
+    rcases List.mem_cons.1 hg with rfl | hg
+    · exact hc
+    · exact hr g hg
+
+/-- the switched pair `(¬s ∨ c0) ∧ (s ∨ c1)` -/
+def switchAnd (c0 c1 : Formula) (fr : Nat) : Formula :=
+  Formula.and [.or [.not (.lit fr), c0], .or [.lit fr, c1]]
+
+theorem switchingCombination_eq (c0 c1 : Formula) (rest : List Formula) (fr : Nat) :
+    switchingCombination c0 c1 rest fr =
+      (if rest.isEmpty then switchAnd c0 c1 fr else buildOr (switchAnd c0 c1 fr :: rest), fr + 1) := rfl
+
+theorem eval_switchAnd (τ : Assign) (c0 c1 : Formula) (fr : Nat) (hfr : 0 < fr) :
+    (switchAnd c0 c1 fr).eval τ = ((!τ fr || c0.eval τ) && (τ fr || c1.eval τ)) := by
+  simp [switchAnd, eval, evalAll, evalAny, litVal, hfr]
+
+theorem WF_switchAnd (c0 c1 : Formula) (fr : Nat) (hfr : 0 < fr) (h0 : c0.WF fr) (h1 : c1.WF fr) :
+    (switchAnd c0 c1 fr).WF (fr + 1) := by
+  have h : ¬ fr = 0 := by omega
+  have h0' := WF_mono (Nat.le_succ fr) c0 h0
+  have h1' := WF_mono (Nat.le_succ fr) c1 h1
+  simp [switchAnd, Formula.WF, Formula.WFs, h, h0', h1']
+
+theorem Shape_switchAnd (c0 c1 : Formula) (fr : Nat) (h0 : c0.Shape) (h1 : c1.Shape)
+    (o0 : c0.isOr = false) (o1 : c1.isOr = false) : (switchAnd c0 c1 fr).Shape := by
+  simp only [switchAnd, Formula.Shape, Formula.Shapes, Formula.isLit, List.mem_cons, List.not_mem_nil,
+    or_false, forall_eq_or_imp, forall_eq, and_true, true_and]
+  exact ⟨⟨h0, rfl, o0⟩, h1, rfl, o1⟩
+
+theorem Sem_switch (c0 c1 : Formula) (rest : List Formula) (fr : Nat) (hfr : 0 < fr)
+    (h0 : c0.WF fr) (h1 : c1.WF fr) (hr : ∀ r ∈ rest, r.WF fr) :
+    Sem (.or (c0 :: c1 :: rest)) fr
+      (if rest.isEmpty then switchAnd c0 c1 fr else buildOr (switchAnd c0 c1 fr :: rest)) (fr + 1) := by
+  refine ⟨Nat.le_succ _, fun τ hg => ?_, fun σ hf => ?_⟩
+  · rw [eval_withRest, eval_switchAnd _ _ _ _ hfr] at hg
+    simp only [eval, evalAny]
+    revert hg
+    cases τ fr <;> cases c0.eval τ <;> cases c1.eval τ <;> cases evalAny τ rest <;> simp
+  · let τ : Assign := fun v => if v = fr then c0.eval σ else σ v
+    have hag : AgreeBelow fr σ τ := by
+      intro v _ hv
+      have : v ≠ fr := by omega
+      simp [τ, this]
+    refine ⟨τ, hag, ?_⟩
+    rw [eval_withRest, eval_switchAnd _ _ _ _ hfr, ← eval_agree hag c0 h0, ← eval_agree hag c1 h1,
+      ← evalAny_agree hag rest ((WFs_iff _ _).2 hr)]
+    have hτ : τ fr = c0.eval σ := by simp [τ]
+    rw [hτ]
+    simp only [eval, evalAny] at hf
+    revert hf
+    cases c0.eval σ <;> cases c1.eval σ <;> cases evalAny σ rest <;> simp
+
+/-! ## The fold over the children -/
+
+/-- What the left-to-right fold over the children `l` establishes for its results `gs`. -/
+structure FoldGood (l : List Formula) (m : Nat) (gs : List Formula) (m' : Nat) : Prop where
+  le : m ≤ m'
+  wf : ∀ g ∈ gs, g.WF m'
+  shape : ∀ g ∈ gs, g.Shape
+  notOr : (∀ e ∈ l, e.isOr = false) → ∀ g ∈ gs, g.isOr = false
+  soundAll : ∀ τ, (∀ g ∈ gs, g.eval τ = true) → ∀ e ∈ l, e.eval τ = true
+  soundAny : ∀ τ, (∃ g ∈ gs, g.eval τ = true) → ∃ e ∈ l, e.eval τ = true
+  complAll : ∀ σ, (∀ e ∈ l, e.eval σ = true) → ∃ τ, AgreeBelow m σ τ ∧ ∀ g ∈ gs, g.eval τ = true
+  complAny : ∀ σ, (∃ e ∈ l, e.eval σ = true) → ∃ τ, AgreeBelow m σ τ ∧ ∃ g ∈ gs, g.eval τ = true
+
+theorem fold_spec (D : Formula → Nat → Except PyErr (Formula × Nat))
+    (hD : ∀ e m g m', D e m = .ok (g, m') → 0 < m → e.WF m → e.Shape → Good e m g m') :
+    ∀ (l : List Formula) (acc : List Formula) (fr : Nat) (cs : List Formula) (fr' : Nat),
+    l.foldlM (fun (acc : List Formula × Nat) e =>
+          match D e acc.2 with
+          | .ok (g, fr) => Except.ok (acc.1 ++ [g], fr)
+          | .error e => .error e) (acc, fr) = .ok (cs, fr') →
+    0 < fr → (∀ e ∈ l, e.WF fr) → (∀ e ∈ l, e.Shape) →
+    ∃ gs, cs = acc ++ gs ∧ FoldGood l fr gs fr' := by
+  intro l
+  induction l with
+  | nil =>
+    intro acc fr cs fr' h hfr _ _
+    simp only [List.foldlM_nil, pure, Except.pure, Except.ok.injEq, Prod.mk.injEq] at h
+    obtain ⟨rfl, rfl⟩ := h
+    refine ⟨[], by simp, ?_⟩
+    constructor <;> simp
+    intro σ; exact ⟨σ, agree_refl _ _⟩
+  | cons e es ih =>
+    intro acc fr cs fr' h hfr hwf hsh
+    rw [List.foldlM_cons] at h
+    cases hd : D e fr with
+    | error x => simp [hd, bind, Except.bind] at h
+    | ok p =>
+      obtain ⟨g, fr1⟩ := p
+      simp only [hd, bind, Except.bind] at h
+      have hG := hD e fr g fr1 hd hfr (hwf e (by simp)) (hsh e (by simp))
+      obtain ⟨⟨le1, snd, cmp⟩, gwf, gsh, gor⟩ := hG
+      have hwf' : ∀ e ∈ es, e.WF fr1 := fun e he => WF_mono le1 e (hwf e (by simp [he]))
+      obtain ⟨gs, rfl, FG⟩ := ih (acc ++ [g]) fr1 cs fr' h (by omega) hwf'
+        (fun e he => hsh e (by simp [he]))
+      refine ⟨g :: gs, by simp, ?_⟩
+      have gwf' : g.WF fr' := WF_mono FG.le g gwf
+      constructor
+      · exact Nat.le_trans le1 FG.le
+      · intro x hx
+        rcases List.mem_cons.1 hx with rfl | hx
+        · exact gwf'
+        · exact FG.wf x hx
+      · intro x hx
+        rcases List.mem_cons.1 hx with rfl | hx
+        · exact gsh
+        · exact FG.shape x hx
+      · intro hno x hx
+        rcases List.mem_cons.1 hx with rfl | hx
+        · exact gor (hno e (by simp))
+        · exact FG.notOr (fun e he => hno e (by simp [he])) x hx
+      · intro τ hall x hx
+        rcases List.mem_cons.1 hx with rfl | hx
+        · exact snd τ (hall g (by simp))
+        · exact FG.soundAll τ (fun y hy => hall y (by simp [hy])) x hx
+      · rintro τ ⟨x, hx, hxe⟩
+        rcases List.mem_cons.1 hx with rfl | hx
+        · exact ⟨e, by simp, snd τ hxe⟩
+        · obtain ⟨y, hy, hye⟩ := FG.soundAny τ ⟨x, hx, hxe⟩
+          exact ⟨y, by simp [hy], hye⟩
+      · intro σ hall
+        obtain ⟨τ1, ag1, hg1⟩ := cmp σ (hall e (by simp))
+        have hes : ∀ x ∈ es, x.eval τ1 = true := fun x hx => by
+          rw [← eval_agree ag1 x (hwf x (by simp [hx]))]; exact hall x (by simp [hx])
+        obtain ⟨τ2, ag2, hg2⟩ := FG.complAll τ1 hes
+        refine ⟨τ2, agree_trans ag1 (agree_mono le1 ag2), fun x hx => ?_⟩
+        rcases List.mem_cons.1 hx with rfl | hx
+        · rw [← eval_agree ag2 x gwf]; exact hg1
+        · exact hg2 x hx
+      · rintro σ ⟨x, hx, hxe⟩
+        rcases List.mem_cons.1 hx with rfl | hx
+        · obtain ⟨τ1, ag1, hg1⟩ := cmp σ hxe
+          exact ⟨τ1, ag1, g, by simp, hg1⟩
+        · obtain ⟨τ2, ag2, y, hy, hye⟩ := FG.complAny σ ⟨x, hx, hxe⟩
+          exact ⟨τ2, agree_mono le1 ag2, y, by simp [hy], hye⟩
+
+/-! ## The main invariant -/
+
+theorem distSwitch_good : ∀ (fuel : Nat) (f : Formula) (m : Nat) (g : Formula) (m' : Nat),
+    distSwitch fuel f m = .ok (g, m') → 0 < m → f.WF m → f.Shape → Good f m g m' := by
+  intro fuel
+  induction fuel with
+  | zero => intro f m g m' h; simp [distSwitch] at h
+  | succ fuel ih =>
+    intro f m g m' h hm hwf hsh
+    cases f with
+    | lit i =>
+      simp only [distSwitch, Except.ok.injEq, Prod.mk.injEq] at h
+      obtain ⟨rfl, rfl⟩ := h
+      exact Good.refl hwf hsh
+    | not f' =>
+      cases f' with
+      | lit i =>
+        simp only [distSwitch, Except.ok.injEq, Prod.mk.injEq] at h
+        obtain ⟨rfl, rfl⟩ := h
+        exact Good.refl hwf hsh
+      | _ => simp [Formula.Shape, Formula.isLit] at hsh
+    | imp p q => simp [Formula.Shape] at hsh
+    | iff p q => simp [Formula.Shape] at hsh
+    | and l =>
+      simp only [distSwitch] at h
+      split at h
+      · simp at h
+      · rename_i cs fr hfold
+        simp only [Formula.WF] at hwf
+        simp only [Formula.Shape] at hsh
+        obtain ⟨gs, hcs, FG⟩ := fold_spec (distSwitch fuel) ih l [] m cs fr hfold hm
+          ((WFs_iff _ _).1 hwf) ((Shapes_iff _).1 hsh)
+        simp only [List.nil_append] at hcs; subst hcs
+        simp only [Except.ok.injEq, Prod.mk.injEq] at h
+        obtain ⟨rfl, rfl⟩ := h
+        refine ⟨⟨FG.le, fun τ hg => ?_, fun σ hf => ?_⟩, WF_buildAnd _ _ FG.wf,
+          Shape_buildAnd _ FG.shape, fun _ => rfl⟩
+        · rw [eval_buildAnd, evalAll_eq_all, List.all_eq_true] at hg
+          simp only [eval, evalAll_eq_all, List.all_eq_true]
+          exact FG.soundAll τ hg
+        · simp only [eval, evalAll_eq_all, List.all_eq_true] at hf
+          obtain ⟨τ, ag, hτ⟩ := FG.complAll σ hf
+          refine ⟨τ, ag, ?_⟩
+          rw [eval_buildAnd, evalAll_eq_all, List.all_eq_true]; exact hτ
+    | or l =>
+      simp only [distSwitch] at h
+      split at h
+      · simp at h
+      · rename_i cs fr hfold
+        have hwf0 := hwf
+        have hsh0 := hsh
+        simp only [Formula.WF] at hwf
+        simp only [Formula.Shape] at hsh
+        obtain ⟨gs, hcs, FG⟩ := fold_spec (distSwitch fuel) ih l [] m cs fr hfold hm
+          ((WFs_iff _ _).1 hwf) ((Shapes_iff _).1 hsh.1)
+        simp only [List.nil_append] at hcs; subst hcs
+        have hno := FG.notOr hsh.2
+        have hfr : 0 < fr := Nat.lt_of_lt_of_le hm FG.le
+        have hS : Sem (.or l) m (.or (sortFormulas cs)) fr := by
+          refine ⟨FG.le, fun τ hg => ?_, fun σ hf => ?_⟩
+          · simp only [eval, evalAny_eq_any, List.any_eq_true, mem_sortFormulas] at hg ⊢
+            exact FG.soundAny τ hg
+          · simp only [eval, evalAny_eq_any, List.any_eq_true, mem_sortFormulas] at hf ⊢
+            exact FG.complAny σ hf
+        have hmem : ∀ x ∈ sortFormulas cs, x ∈ cs := fun x hx => (mem_sortFormulas x cs).1 hx
+        have hnoOr : ∀ h : (Formula.or l).isOr = false, g.isOr = false := fun h => by simp [isOr] at h
+        split at h
+        · simp only [Except.ok.injEq, Prod.mk.injEq] at h
+          obtain ⟨rfl, rfl⟩ := h
+          exact Good.refl hwf0 hsh0
+        · rename_i c heq
+          simp only [Except.ok.injEq, Prod.mk.injEq] at h
+          obtain ⟨rfl, rfl⟩ := h
+          rw [heq] at hS hmem
+          have hc := hmem c (by simp)
+          refine ⟨hS.trans (Sem.of_eq _ (fun τ => by simp [eval, evalAny])), FG.wf c hc, FG.shape c hc, hnoOr⟩
+        · rename_i c0 c1 rest heq
+          rw [heq] at hS hmem
+          have m0 := hmem c0 (by simp)
+          have m1 := hmem c1 (by simp)
+          have mr : ∀ r ∈ rest, r ∈ cs := fun r hr => hmem r (by simp [hr])
+          split at h
+          · simp only [Except.ok.injEq, Prod.mk.injEq] at h
+            obtain ⟨rfl, rfl⟩ := h
+            exact Good.refl hwf0 hsh0
+          · split at h
+            · have G := ih _ _ _ _ h hfr
+                (by rw [naiveCombination_eq]
+                    exact WF_withRest _ _ (WF_crossAnd _ _ (FG.wf _ m0) (FG.wf _ m1))
+                      (fun r hr => FG.wf r (mr r hr)))
+                (by rw [naiveCombination_eq]
+                    exact Shape_withRest _ _ (Shape_crossAnd _ _ (FG.shape _ m0) (FG.shape _ m1))
+                      (fun r hr => FG.shape r (mr r hr)))
+              refine ⟨hS.trans ((Sem.of_eq fr (fun τ => ?_)).trans G.1), G.2.1, G.2.2.1, hnoOr⟩
+              rw [naiveCombination_eq, eval_withRest, eval_crossAnd τ _ _ (hno _ m0) (hno _ m1)]
+              simp [eval, evalAny, Bool.or_assoc]
+            · rw [switchingCombination_eq] at h
+              have G := ih _ _ _ _ h (Nat.succ_pos fr)
+                (WF_withRest _ _ (WF_switchAnd _ _ _ hfr (FG.wf _ m0) (FG.wf _ m1))
+                  (fun r hr => WF_mono (Nat.le_succ fr) r (FG.wf r (mr r hr))))
+                (Shape_withRest _ _ (Shape_switchAnd _ _ _ (FG.shape _ m0) (FG.shape _ m1)
+                  (hno _ m0) (hno _ m1)) (fun r hr => FG.shape r (mr r hr)))
+              exact ⟨hS.trans ((Sem_switch c0 c1 rest fr hfr (FG.wf _ m0) (FG.wf _ m1)
+                (fun r hr => FG.wf r (mr r hr))).trans G.1), G.2.1, G.2.2.1, hnoOr⟩
+
+end SPModel.Switch
+
+namespace SPModel
+open Formula Switch
+
+/-- Switching conversion, partial correctness: if the fuelled model returns
+    normally, the result has the formula's models on the original variables and
+    uses fresh variables only from `[n, n')`. -/
+theorem switching_models_partial' (fuel : Nat) (f g : Formula) (n n' : Nat) (hn : 0 < n) (hf : f.WF n)
+    (h : toCnfSwitching fuel f n = .ok (g, n')) (σ : Assign) :
+    n ≤ n' ∧ g.WF n' ∧ (f.eval σ = true ↔ ∃ τ, AgreeBelow n σ τ ∧ g.eval τ = true) := by
+  -- the result of `distSwitch` on the negation normal form, before the final wrapping
+  have key : ∃ g0, distSwitch fuel (demorgan false (elimIff f)) n = .ok (g0, n') ∧
+      (∀ τ, g.eval τ = g0.eval τ) ∧ (g0.WF n' → g.WF n') := by
+    unfold toCnfSwitching at h
+    split at h
+    · simp at h
+    · rename_i l k heq
+      simp only [Except.ok.injEq, Prod.mk.injEq] at h
+      obtain ⟨rfl, rfl⟩ := h
+      exact ⟨_, heq, fun _ => rfl, fun h => h⟩
+    · rename_i g0 k _ heq
+      simp only [Except.ok.injEq, Prod.mk.injEq] at h
+      obtain ⟨rfl, rfl⟩ := h
+      refine ⟨g0, heq, fun τ => by simp [eval, evalAll], fun h => ?_⟩
+      simp [Formula.WF, Formula.WFs, h]
+  obtain ⟨g0, h0, hev, hwf⟩ := key
+  obtain ⟨⟨le, snd, cmp⟩, gwf, _, _⟩ :=
+    distSwitch_good fuel _ n g0 n' h0 hn (WF_nnf n f hf) (Shape_nnf f)
+  refine ⟨le, hwf gwf, fun hσ => ?_, fun ⟨τ, ag, hτ⟩ => ?_⟩
+  · obtain ⟨τ, ag, hτ⟩ := cmp σ (by rw [eval_nnf]; exact hσ)
+    exact ⟨τ, ag, by rw [hev]; exact hτ⟩
+  · rw [hev] at hτ
+    have := snd τ hτ
+    rw [eval_nnf] at this
+    rw [eval_agree ag f hf]; exact this
 
 end SPModel
